@@ -79,6 +79,18 @@ def templates():
                 T["aug-slice-mix-%s%s%s" % (lo, up, st)] = ["p(1, box('A'))[%s] += p(9, V(2))" % sl]
                 T["assign-slice-mix-%s%s%s" % (lo, up, st)] = ["p(1, box('A'))[%s] = p(9, [7])" % sl]
                 T["aug-slice-in-tuple-mix-%s%s%s" % (lo, up, st)] = ["p(1, box('A'))[%s, p(10, 5)] -= p(9, V(2))" % sl]
+    # object expressions of every shape in front of attribute / subscript / slice targets (each evaluated exactly once,
+    # before the index, for augmented and plain stores)
+    OBJ = {"probe": "p(1, box('A'))", "probe.attr": "p(1, box('A')).inner", "probe.attr.attr": "p(1, box('A')).inner.deep",
+           "probe[probe]": "p(1, box('A'))[p(2, 0)]", "probe[probe].attr": "p(1, box('A'))[p(2, 0)].inner",
+           "probe.attr[probe]": "p(1, box('A')).inner[p(2, 0)]", "call(probe).attr": "ident(p(1, box('A'))).inner",
+           "probe.m(probe)": "p(1, box('A')).m(p(2, 0))", "(probe if probe else probe).attr": "(p(1, box('A')) if p(2, 1) else p(3, box('B'))).inner"}
+    for oname, obj in OBJ.items():
+        T["aug-attr-on-" + oname] = [obj + ".cnt += p(7, V(2))"]
+        T["aug-sub-on-" + oname] = [obj + "[p(6, 1)] -= p(7, V(2))"]
+        T["aug-slice-on-" + oname] = [obj + "[p(5, 0):p(6, 2)] *= p(7, V(2))"]
+        T["assign-attr-on-" + oname] = [obj + ".cnt = p(7, 5)"]
+        T["assign-sub-on-" + oname] = [obj + "[p(6, 1)] = p(7, 5)"]
     T["aug-literal-index"] = ["p(1, box('A'))[0] += p(2, V(2))", "p(3, box('B'))['k', 1] *= p(4, V(3))", "p(5, box('C'))[-1] //= p(6, V(4))"]
     T["aug-tuple-index"] = ["p(1, box('A'))[p(2, 0), p(3, 1)] += p(4, V(2))"]
     T["aug-slice-in-tuple"] = ["p(1, box('A'))[p(2, 0):p(3, 1), p(4, 2)] += p(5, V(2))"]
@@ -96,6 +108,15 @@ def templates():
     T["class-header"] = ["class C(p(1, Base1), p(2, Base2), metaclass=p(3, Meta), tag=p(4, 't')):", "    y = p(5, 1)"]
     T["class-header-kw-first"] = ["class C(p(1, Base1), tag=p(2, 't'), metaclass=p(3, Meta)):", "    y = p(4, 1)"]
     T["class-decorators"] = ["@p(1, deco('A'))", "@p(2, deco('B'))", "class C(p(3, Base1)):", "    y = p(4, 1)", "    def m(self, a=p(5, 2)):", "        return a"]
+    # exactly one header expression, with effects in the body too (a lone expression must still run before the body)
+    T["class-single-base"] = ["class C(p(1, Base2)):", "    x = p(2, 1)", "    def m(self, a=p(3, 2)):", "        return a"]
+    T["class-single-metaclass"] = ["class C(metaclass=p(1, Meta)):", "    x = p(2, 1)"]
+    T["class-single-keyword"] = ["class C(Base1, tag=p(1, 't')):", "    x = p(2, 1)"]
+    T["class-single-keyword-only"] = ["class B0:", "    def __init_subclass__(cls, **kw):", "        pass", "class C(B0, **p(1, {})):", "    x = p(2, 1)"]
+    T["class-single-decorator"] = ["@p(1, deco('A'))", "class C:", "    x = p(2, 1)"]
+    T["class-single-decorator-call"] = ["@decofactory(p(1, 'B'))", "class C:", "    x = p(2, 1)", "    y = p(3, 2)"]
+    T["class-no-header-body-order"] = ["class C:", "    x = p(1, 1)", "    y = [p(2, 2), p(3, 3)]", "    def m(self, a=p(4, 4)):", "        return a"]
+    T["def-single-decorator-default-order"] = ["@p(1, deco('A'))", "def f(a=p(2, 1)):", "    return a"]
     T["class-star-bases"] = ["class C(*p(1, [Base1]), **p(2, {'tag': 'q'})):", "    pass"]
     T["method-defaults-and-deco"] = ["class C:", "    @p(1, staticmethod)", "    def s(a=p(2, 1)):", "        return a", "    z = p(3, s)", "C.s()"]
     # ---- control-flow headers
@@ -269,7 +290,10 @@ def mkenv():
 
     class Base2:
         pass
-    ns = dict(p=p, V=V, box=box, logiter=logiter, deco=deco, decofactory=decofactory, fn=fn, Meta=Meta,
+    def ident(o):
+        log.append(("ident", repr(o)))
+        return o
+    ns = dict(ident=ident, p=p, V=V, box=box, logiter=logiter, deco=deco, decofactory=decofactory, fn=fn, Meta=Meta,
               Base1=Base1, Base2=Base2, __name__="__main__")
     return ns, log
 
